@@ -41,7 +41,7 @@ EMPHASIS = {
     "C04": {"p_mcall": 0.75, "p_nonexcl": 0.4, "n_alias": (1, 3), "p_nest": 0.15, "p_enable": 0.5},
     "C05": {"p_nonexcl": 0.4, "n_alias": (1, 3), "p_group": 0.5, "p_mcall": 0.6, "p_validate": 0.15},
     "C07": {"share": 0.5, "n_conflict": (0, 2), "n_before": (0, 2), "p_nonexcl": 0.35, "p_same_in_alts": 0.6, "p_ready_t": 0.5, "p_ready_m": 0.4},
-    "C08": {"n_conflict": (1, 3), "n_before": (0, 2), "share": 0.5, "p_ready_t": 0.5, "p_ready_m": 0.3, "p_validate": 0.1},
+    "C08": {"n_alias": (1, 2), "n_conflict": (1, 3), "n_before": (0, 2), "share": 0.5, "p_ready_t": 0.5, "p_ready_m": 0.3, "p_validate": 0.1},
     "C11": {},
 }
 
